@@ -1,4 +1,5 @@
 import Juniper.Proofs.StreamClose
+import Juniper.Proofs.StreamLog
 /-!
 # C09 — every stream handed to the library is closed exactly once, never used after (property
 theorems, caller's-goroutine combinators)
@@ -31,37 +32,177 @@ theorem pipeline_forwards {σ'' : Type u} {δ : Type v} {m : SM σ α} {m' : SM 
 
 /-- every single-source wrapper of `stream.go` forwards -/
 theorem withPeek_close_once (m : SM σ α) (h : stPeekCloseForwards = true := by decide) :
-    Forwards m (withPeek m) (fun p => p.inner) := withPeek_forwards m h
+    Forwards m (withPeek m) (fun p => p.inner) :=
+  Juniper.Proofs.Skeleton.under Juniper.Proofs.Skeleton.Tie.stPeek (withPeek_forwards m h)
 theorem chunk_close_once (size : Int) (m : SM σ α) (h : stChunkCloseForwards = true := by decide) :
-    Forwards m (chunk size m) (fun st => st.inner) := chunk_forwards size m h
+    Forwards m (chunk size m) (fun st => st.inner) :=
+  Juniper.Proofs.Skeleton.under Juniper.Proofs.Skeleton.Tie.stChunk (chunk_forwards size m h)
 theorem compact_close_once (eq : α → α → Bool) (m : SM σ α) (h : stCompactCloseForwards = true := by decide) :
-    Forwards m (compact eq m) (fun st => st.inner) := compact_forwards eq m h
+    Forwards m (compact eq m) (fun st => st.inner) :=
+  Juniper.Proofs.Skeleton.under Juniper.Proofs.Skeleton.Tie.stCompact (compact_forwards eq m h)
 theorem filter_close_once (keep : α → Except Err Bool) (m : SM σ α) (h : stFilterCloseForwards = true := by decide) :
-    Forwards m (filter keep m) (fun st => st.inner) := filter_forwards keep m h
+    Forwards m (filter keep m) (fun st => st.inner) :=
+  Juniper.Proofs.Skeleton.under Juniper.Proofs.Skeleton.Tie.stFilter (filter_forwards keep m h)
 theorem map_close_once (f : α → Except Err β) (m : SM σ α) (h : stMapCloseForwards = true := by decide) :
-    Forwards m (map f m) (fun st => st.inner) := map_forwards f m h
+    Forwards m (map f m) (fun st => st.inner) :=
+  Juniper.Proofs.Skeleton.under Juniper.Proofs.Skeleton.Tie.stMap (map_forwards f m h)
 theorem first_close_once (m : SM σ α) (h : stFirstCloseForwards = true := by decide) :
-    Forwards m (first m) (fun st => st.inner) := first_forwards m h
+    Forwards m (first m) (fun st => st.inner) :=
+  Juniper.Proofs.Skeleton.under Juniper.Proofs.Skeleton.Tie.stFirst (first_forwards m h)
 theorem while_close_once (f : α → Except Err Bool) (m : SM σ α) (h : stWhileCloseForwards = true := by decide) :
-    Forwards m (while_ f m) (fun st => st.inner) := while_forwards f m h
+    Forwards m (while_ f m) (fun st => st.inner) :=
+  Juniper.Proofs.Skeleton.under Juniper.Proofs.Skeleton.Tie.stWhile (while_forwards f m h)
 theorem flattenSlices_close_once (m : SM σ (List α)) (h : stFlattenSlicesCloseForwards = true := by decide) :
-    Forwards m (flattenSlices m) (fun st => st.inner) := flattenSlices_forwards m h
+    Forwards m (flattenSlices m) (fun st => st.inner) :=
+  Juniper.Proofs.Skeleton.under Juniper.Proofs.Skeleton.Tie.stFlattenSlices (flattenSlices_forwards m h)
 /-- `Flatten` forwards to its outer stream … -/
 theorem flatten_outer_close_once (mo : SM σ τ) (mi : SM τ α) (h : stFlattenCloseForwards = true := by decide) :
-    Forwards mo (flatten mo mi) (fun st => st.outer) := flatten_outer_forwards mo mi h
+    Forwards mo (flatten mo mi) (fun st => st.outer) :=
+  Juniper.Proofs.Skeleton.under Juniper.Proofs.Skeleton.Tie.stFlatten (flatten_outer_forwards mo mi h)
 
 /-- `Runs` used through the documented protocol (outer `Next`, read the inner stream, optionally close
 it, advance) forwards to its source: both ports move the source by at most one step, the outer
 `Close` closes it (through the shared peekable) exactly once. -/
 theorem runs_close_once (same : α → α → Bool) (take : Option Nat) (cl : Bool) (m : SM σ α)
     (hR : stRunsCloseForwards = true := by decide) (hP : stPeekCloseForwards = true := by decide) :
-    Forwards m (runsProto same take cl m) (fun st => st.rs.pk.inner) := runsProto_forwards same take cl m hR hP
+    Forwards m (runsProto same take cl m) (fun st => st.rs.pk.inner) :=
+  Juniper.Proofs.Skeleton.under Juniper.Proofs.Skeleton.Tie.stRuns (runsProto_forwards same take cl m hR hP)
 
 /-- non-vacuity: a two-stage pipeline over the logged source, consumer stops after three calls -/
 example : let m' := chunk 2 (filter (fun (n : Nat) => .ok (n % 2 == 0)) src)
     let t : ChunkSt (Wrap (Src Nat)) Nat := ⟨⟨Src.of [.item 2, .item 4, .transient 1, .item 6]⟩, []⟩
     ((m'.close (afterS m' [true, false, true] t)).inner.inner).closes = 1 ∧
     ((m'.close (afterS m' [true, false, true] t)).inner.inner).after = 0 := by decide
+
+/-! ### every wrapper named in the property: its own closed-exactly-once statement over the logged source
+
+(`Next` calls under any contexts — the consumer stops wherever it likes — then `Close`: the source has
+seen exactly one `Close` and no `Next` after it.) Corollaries of `close_once` and the `Forwards` lemma of
+each wrapper, i.e. of its regenerated `s.inner.Close()` fact and its control skeleton. -/
+
+theorem withPeek_closes_source_once (s0 : Src α) (h0 : s0.closes = 0) (cs : List Bool) :
+    ((withPeek src).close (afterS (withPeek src) cs ⟨s0, none⟩)).inner.closes = 1 ∧
+    ((withPeek src).close (afterS (withPeek src) cs ⟨s0, none⟩)).inner.after = s0.after :=
+  close_once (withPeek_close_once src) ⟨s0, none⟩ h0 cs
+
+theorem chunk_closes_source_once (size : Int) (s0 : Src α) (h0 : s0.closes = 0) (cs : List Bool) :
+    ((chunk size src).close (afterS (chunk size src) cs ⟨s0, []⟩)).inner.closes = 1 ∧
+    ((chunk size src).close (afterS (chunk size src) cs ⟨s0, []⟩)).inner.after = s0.after :=
+  close_once (chunk_close_once size src) ⟨s0, []⟩ h0 cs
+
+theorem compact_closes_source_once (eq : α → α → Bool) (s0 : Src α) (h0 : s0.closes = 0) (cs : List Bool) :
+    ((compact eq src).close (afterS (compact eq src) cs ⟨s0, true, none⟩)).inner.closes = 1 ∧
+    ((compact eq src).close (afterS (compact eq src) cs ⟨s0, true, none⟩)).inner.after = s0.after :=
+  close_once (compact_close_once eq src) ⟨s0, true, none⟩ h0 cs
+
+theorem filter_closes_source_once (keep : α → Except Err Bool) (s0 : Src α) (h0 : s0.closes = 0) (cs : List Bool) :
+    ((filter keep src).close (afterS (filter keep src) cs ⟨s0⟩)).inner.closes = 1 ∧
+    ((filter keep src).close (afterS (filter keep src) cs ⟨s0⟩)).inner.after = s0.after :=
+  close_once (filter_close_once keep src) ⟨s0⟩ h0 cs
+
+theorem map_closes_source_once (f : α → Except Err β) (s0 : Src α) (h0 : s0.closes = 0) (cs : List Bool) :
+    ((map f src).close (afterS (map f src) cs ⟨s0⟩)).inner.closes = 1 ∧
+    ((map f src).close (afterS (map f src) cs ⟨s0⟩)).inner.after = s0.after :=
+  close_once (map_close_once f src) ⟨s0⟩ h0 cs
+
+theorem first_closes_source_once (n : Int) (s0 : Src α) (h0 : s0.closes = 0) (cs : List Bool) :
+    ((first src).close (afterS (first src) cs ⟨s0, n⟩)).inner.closes = 1 ∧
+    ((first src).close (afterS (first src) cs ⟨s0, n⟩)).inner.after = s0.after :=
+  close_once (first_close_once src) ⟨s0, n⟩ h0 cs
+
+theorem while_closes_source_once (f : α → Except Err Bool) (s0 : Src α) (h0 : s0.closes = 0) (cs : List Bool) :
+    ((while_ f src).close (afterS (while_ f src) cs ⟨s0, none, false⟩)).inner.closes = 1 ∧
+    ((while_ f src).close (afterS (while_ f src) cs ⟨s0, none, false⟩)).inner.after = s0.after :=
+  close_once (while_close_once f src) ⟨s0, none, false⟩ h0 cs
+
+theorem flattenSlices_closes_source_once (s0 : Src (List α)) (h0 : s0.closes = 0) (cs : List Bool) :
+    ((flattenSlices src).close (afterS (flattenSlices src) cs ⟨s0, []⟩)).inner.closes = 1 ∧
+    ((flattenSlices src).close (afterS (flattenSlices src) cs ⟨s0, []⟩)).inner.after = s0.after :=
+  close_once (flattenSlices_close_once src) ⟨s0, []⟩ h0 cs
+
+/-- `Flatten`: the outer stream (the inner ones: `flatten_inner_closed_once`) -/
+theorem flatten_closes_outer_once (mi : SM τ α) (s0 : Src τ) (h0 : s0.closes = 0) (cs : List Bool) :
+    ((flatten src mi).close (afterS (flatten src mi) cs ⟨s0, none, []⟩)).outer.closes = 1 ∧
+    ((flatten src mi).close (afterS (flatten src mi) cs ⟨s0, none, []⟩)).outer.after = s0.after :=
+  close_once (flatten_outer_close_once src mi) ⟨s0, none, []⟩ h0 cs
+
+/-- `Join` closes every argument exactly once is `join_rest_closed_once`; `Runs`: -/
+theorem runs_closes_source_once (same : α → α → Bool) (take : Option Nat) (cl : Bool) (s0 : Src α)
+    (h0 : s0.closes = 0) (cs : List Bool) :
+    ((runsProto same take cl src).close (afterS (runsProto same take cl src) cs ⟨⟨⟨s0, none⟩, 0, none⟩, none⟩)).rs.pk.inner.closes = 1 ∧
+    ((runsProto same take cl src).close (afterS (runsProto same take cl src) cs ⟨⟨⟨s0, none⟩, 0, none⟩, none⟩)).rs.pk.inner.after = s0.after :=
+  close_once (runs_close_once same take cl src) ⟨⟨⟨s0, none⟩, 0, none⟩, none⟩ h0 cs
+
+example : ((first src).close (afterS (first src) [true, true, false, true] ⟨Src.of [Ev.item 1, .item 2, .item 3], 1⟩)).inner.closes = 1 := by
+  decide
+
+/-! ### pipelines of arbitrary depth: the source's ghost call log -/
+
+section pipelines
+variable {α : Type}
+
+/-- **pipeline, counters**: any `SPipe` pipeline (any depth; `Filter`, `Map`, `First`, `While`,
+`CompactFunc`, `WithPeek`, `Chunk`+`FlattenSlices`) over the logged source: closed exactly once, never
+pulled afterwards. -/
+theorem pipeline_close_once (p : SPipe α) (s0 : Src α) (h0 : s0.closes = 0) (cs : List Bool) :
+    ((p.machine src).proj ((p.machine src).m.close (afterS (p.machine src).m cs ((p.machine src).wrap s0)))).closes = 1 ∧
+    ((p.machine src).proj ((p.machine src).m.close (afterS (p.machine src).m cs ((p.machine src).wrap s0)))).after = s0.after := by
+  have h := close_once (spipe_forwards src p) ((p.machine src).wrap s0) (by rw [SPipe.proj_wrap]; exact h0) cs
+  rwa [SPipe.proj_wrap] at h
+
+/-- **pipeline, call log**: what the source sees, call by call, is `Next`s and then exactly one `Close`,
+at the very end. -/
+theorem pipeline_call_log (p : SPipe α) (s0 : Src α) (cs : List Bool) :
+    NextsThenClose ((p.machine lsrc).proj ((p.machine lsrc).m.close
+      (afterS (p.machine lsrc).m cs ((p.machine lsrc).wrap ⟨s0, []⟩)))).log := by
+  obtain ⟨ds, h⟩ := forwards_call_log (spipe_forwards lsrc p) ((p.machine lsrc).wrap ⟨s0, []⟩) cs
+  rw [SPipe.proj_wrap] at h
+  exact ⟨ds, by rw [h]; rfl⟩
+
+/-- **no `Next` after `Close`** … -/
+theorem pipeline_no_next_after_close (p : SPipe α) (s0 : Src α) (cs : List Bool) :
+    nextAfterClose ((p.machine lsrc).proj ((p.machine lsrc).m.close
+      (afterS (p.machine lsrc).m cs ((p.machine lsrc).wrap ⟨s0, []⟩)))).log = false :=
+  (nextsThenClose_spec (pipeline_call_log p s0 cs)).2.1
+
+/-- … **no second `Close`** … -/
+theorem pipeline_no_second_close (p : SPipe α) (s0 : Src α) (cs : List Bool) :
+    closeCount ((p.machine lsrc).proj ((p.machine lsrc).m.close
+      (afterS (p.machine lsrc).m cs ((p.machine lsrc).wrap ⟨s0, []⟩)))).log = 1 :=
+  (nextsThenClose_spec (pipeline_call_log p s0 cs)).1
+
+/-- … and **never concurrent**: the combinator methods start no goroutine and use no channel
+(regenerated: `combConcurrencyOps = 0`), every step of the pipeline adds at most one *complete* call to
+the source's log — made under the step's own context and finished before the step returns — and the log
+of a run is the concatenation, in the order of the consumer's calls, of what each of them adds. Calls
+on the source therefore never overlap each other as long as the consumer's own calls do not. -/
+theorem pipeline_never_concurrent (p : SPipe α) :
+    combConcurrencyOps = 0 ∧ AtomicCalls (p.machine lsrc).m (p.machine lsrc).proj ∧
+    ∀ (t : (p.machine lsrc).σ) (cs1 cs2 : List Bool), ∃ ds1 ds2 : List Bool,
+      ((p.machine lsrc).proj (afterS (p.machine lsrc).m cs1 t)).log =
+        ((p.machine lsrc).proj t).log ++ ds1.map Call.next ∧
+      ((p.machine lsrc).proj (afterS (p.machine lsrc).m (cs1 ++ cs2) t)).log =
+        ((p.machine lsrc).proj t).log ++ ds1.map Call.next ++ ds2.map Call.next :=
+  ⟨Juniper.Proofs.Skeleton.Tie.sequential, forwards_atomic (spipe_forwards lsrc p),
+    forwards_log_append (spipe_forwards lsrc p)⟩
+
+/-- a reducer over a pipeline: the same log shape (here `Collect`; the others likewise by their `_reach` lemma) -/
+theorem pipeline_collect_call_log (p : SPipe α) (s0 : Src α) (c : Bool) (fuel : Nat) :
+    NextsThenClose ((p.machine lsrc).proj (collect (p.machine lsrc).m c fuel ((p.machine lsrc).wrap ⟨s0, []⟩)).2).log := by
+  obtain ⟨cs, hcs⟩ := collect_reach (p.machine lsrc).m c fuel ((p.machine lsrc).wrap ⟨s0, []⟩)
+  rw [hcs]
+  exact pipeline_call_log p s0 cs
+
+/-- non-vacuity: a depth-4 pipeline; seven steps (one with an expired context), then `Close`: `First 2`
+stops asking once it has delivered two items -/
+example :
+    let p : SPipe Nat := .first 2 (.chunkFlat 2 (.filter (fun n => .ok (n % 2 == 1)) (.peek .src)))
+    let M := p.machine lsrc
+    (M.proj (M.m.close (afterS M.m [true, true, false, true, true, true, true] (M.wrap ⟨Src.of [.item 1, .item 2, .item 3, .item 5], []⟩)))).log
+      = [.next true, .next true, .next false, .next true, .close] := by
+  decide
+
+end pipelines
 
 /-- **`flatten_inner_closed_once`**: … and every inner stream it obtained (fresh, over logged sources)
 is closed exactly once — when it ended, or by `Close` — and never pulled afterwards. -/
